@@ -563,7 +563,7 @@ def run(ctx):
         for i, (name, path, data) in enumerate(configs):
             if not ctx.mine(i):
                 continue
-            differential(ctx, name, path, data, [ctx.seed * 10 + s for s in range(ctx.pick(2, 24))], ctx.pick(150, 400))
+            differential(ctx, name, path, data, [0 if (s == 0 and i % 2) else ctx.seed * 10 + s for s in range(ctx.pick(2, 24))], ctx.pick(150, 400))
             variation_checks(ctx, name, data, ctx.seed, ctx.pick(60, 150))
             if not ctx.out_of_time(0.8):
                 corruption_checks(ctx, name, data)
